@@ -961,15 +961,22 @@ fn c05_gen_b(seed: u64, run: u64, thorough: bool) -> Plan {
         let s_alloc = match &plan.endpoints[0].kind { EndpointKind::Server { cfg, .. } => cfg.max_receive_alloc, _ => 0 };
         let heal = plan.timeline.iter().find(|t| matches!(&t.op, Op::Mark { name } if name == "heal")).map(|t| t.t_us).unwrap_or(5_000_000);
         let mut tag = 950_000u32;
+        let (s_pkt, server_side) = match &plan.endpoints[0].kind { EndpointKind::Server { cfg, .. } => (cfg.max_packet_size, r.chance(0.5)), _ => (0, false) };
+        let c_allocs: Vec<u64> = plan.endpoints.iter().map(|e| match &e.kind { EndpointKind::Client { cfg, .. } => cfg.max_receive_alloc, _ => 0 }).collect();
         for (c, c_pkt) in clients {
             let t = heal + r.range(2_000_000, 6_000_000);
+            // either side may be the one that sends the last burst and hangs up (the server's
+            // last packets may be small ones of a mode that does not wait for acknowledgement:
+            // they and the disconnect request then reach the client in one step)
+            let (ep, to, cap) = if server_side { (0, Some(c), s_pkt.min(c_allocs[c])) } else { (c, None, c_pkt.min(s_alloc)) };
+            let small_tail = r.chance(0.5);
             for k in 0..r.range(1, 4) {
-                let len = (r.range(1, 7) * FRAG + r.range(1, FRAG - 1)).min(c_pkt).min(s_alloc).max(12) as u32;
-                let mode = *r.pick(&[MODE_UNRELIABLE, MODE_PERSISTENT, MODE_RELIABLE]);
-                plan.push(t + k, 0x4000_0000 + tag, Op::Send { ep: c, to: None, ch: r.below(4) as u8, mode, len, tag });
+                let len = if small_tail { r.range(12, 400) } else { r.range(1, 7) * FRAG + r.range(1, FRAG - 1) }.min(cap).max(12) as u32;
+                let mode = if small_tail { MODE_UNRELIABLE } else { *r.pick(&[MODE_UNRELIABLE, MODE_PERSISTENT, MODE_RELIABLE]) };
+                plan.push(t + k, 0x4000_0000 + tag, Op::Send { ep, to, ch: r.below(4) as u8, mode, len, tag });
                 tag += 1;
             }
-            plan.push(t + 10, 0x6000_0000, Op::Disconnect { ep: c, to: None });
+            plan.push(t + 10, 0x6000_0000, Op::Disconnect { ep, to });
         }
         plan.sort();
     }
